@@ -19,10 +19,36 @@ theorem js0_inv (p : Pic) : JInv p.pal (js0 p) := by
   intro h; exact absurd (show true = false from h) (by decide)
 
 /-- the buffer the Tundra loader produces for a representable picture -/
-def tndLoaded (p : Pic) : LBuf :=
+def tndLoaded (p : Pic) (m : Option Sauce.Meta) : LBuf :=
   { bw := p.w, bh := (p.h : Int), lw := p.w, lh := (p.h : Int),
     lines := (jrows p.pal (js0 p) p.rows).2.map (partRow p.w), ice := .ice, pal := (jrows p.pal (js0 p) p.rows).1.lpal,
-    fonts := [(0, defaultFont)] }
+    fonts := [(0, defaultFont)], sauce := m }
+
+/-- the start buffer of the Tundra loader: the record's width, whatever it is (1..=65535) -/
+theorem tnd_start (s : Sauce.Sauce) (hw1 : 1 ≤ s.width) (hf : s.font = none) :
+    tndStart (some s) = { bw := s.width, bh := s.height, lw := s.width, lh := s.height, lines := [],
+                          ice := if s.ice then .ice else .unlimited, pal := dosPalette, fonts := [(0, defaultFont)], sauce := some (metaOf s) } := by
+  unfold tndStart
+  have hc : (BinFmt.tndClearsRows == 1) = true := by decide
+  have hm : BinFmt.tndWideAbove = 1000 := rfl
+  by_cases hw : s.width ≤ 1000
+  · rw [hc, start_setSauce _ _ s hw1 hw]
+    have : ¬ (s.width > BinFmt.tndWideAbove) := by rw [hm]; omega
+    simp only [this, if_false]
+    unfold startFonts; simp [hf]
+  · unfold LBuf.setSauce LBuf.start
+    have hm2 : BinFmt.sauceMaxWidth = 1000 := rfl
+    have hcond : (s.width = 0 ∨ s.width > BinFmt.sauceMaxWidth) := by rw [hm2]; omega
+    have : s.width > BinFmt.tndWideAbove := by rw [hm]; omega
+    simp only [hc, if_true, hcond, this, hf, Option.bind_none]
+
+theorem tnd_start_none : tndStart none =
+    ({ bw := 80, bh := 25, lw := 80, lh := 25, lines := [], ice := IceMode.unlimited, pal := dosPalette,
+       fonts := [(0, defaultFont)], sauce := none } : LBuf) := by
+  unfold tndStart
+  have hc : (BinFmt.tndClearsRows == 1) = true := by decide
+  rw [hc, start_setSauce_none]
+  rfl
 
 theorem tnd_cells_cond (p : Pic)
     (hcells : allCells p (fun c => decide (c.ch ≤ 255) && isVisible c && !isBlink c.attr && decide (c.attr.fg < 2147483648) &&
@@ -36,9 +62,9 @@ theorem tnd_cells_cond (p : Pic)
   exact ⟨h1, h2, h3, h4, h5⟩
 
 /-- the loader on the file body the writer produced, for either start buffer -/
-theorem tnd_load (p : Pic) (s : Option Sauce) (bytes : List Nat)
+theorem tnd_load (p : Pic) (s : Option Sauce.Sauce) (bytes : List Nat)
     (hwf : wellFormed p = true) (hw1 : 1 ≤ p.w)
-    (hs : (s = none ∧ p.w = 80) ∨ (s = some ⟨p.w, 0, false, 129⟩ ∧ p.w ≤ 1000))
+    (hs : (s = none ∧ p.w = 80) ∨ (∃ s', s = some s' ∧ s'.width = p.w ∧ s'.font = none))
     (hcells : ∀ r ∈ p.rows, ∀ c ∈ r, c.ch ≤ 255 ∧ isVisible c = true)
     (hw : tndCells p.pal ⟨[BinFmt.tndVersion] ++ BinFmt.tndHeader, fromU8' p.ice 0, true, none⟩ 0 p.rows.flatten =
       some { out := ([BinFmt.tndVersion] ++ BinFmt.tndHeader) ++ bytes, attr := (jrow p.pal (js0 p) p.rows.flatten).1.wattr,
@@ -46,25 +72,19 @@ theorem tnd_load (p : Pic) (s : Option Sauce) (bytes : List Nat)
     (hrun : ∀ (sl : TL) (F : Nat), sl.buf.pal = [(0, 0, 0)] → sl.fg = Xb.defaultFg → sl.bg = Xb.defaultBg → sl.x = 0 → sl.y = 0 → 1 ≤ sl.buf.bw →
       tndLoop (F + p.rows.flatten.length) (bytes ++ []) sl = tndLoop F [] (runResult p.pal (js0 p) sl 0 0 p.rows.flatten))
     (hlen : p.rows.flatten.length ≤ bytes.length) :
-    tndLoad (([BinFmt.tndVersion] ++ BinFmt.tndHeader) ++ bytes) s = .ok (tndLoaded p) := by
+    tndLoad (([BinFmt.tndVersion] ++ BinFmt.tndHeader) ++ bytes) s = .ok (tndLoaded p (s.map metaOf)) := by
   obtain ⟨hne, hrows, hwid⟩ := rows_nonempty p hwf
   -- the start buffer
-  have hstart : ∃ bh0 lh0 : Int, ∃ im : IceMode, (LBuf.start BinFmt.tndStartW BinFmt.tndStartH (BinFmt.tndClearsRows == 1)).setSauce s =
-      { bw := p.w, bh := bh0, lw := p.w, lh := lh0, lines := [], ice := im, pal := dosPalette, fonts := [(0, defaultFont)] } := by
-    have hc : (BinFmt.tndClearsRows == 1) = true := by decide
-    rcases hs with ⟨h1, h2⟩ | ⟨h1, h2⟩
+  have hstart : ∃ bh0 lh0 : Int, ∃ im : IceMode, tndStart s =
+      { bw := p.w, bh := bh0, lw := p.w, lh := lh0, lines := [], ice := im, pal := dosPalette, fonts := [(0, defaultFont)],
+        sauce := s.map metaOf } := by
+    rcases hs with ⟨h1, h2⟩ | ⟨s', h1, h2, h3⟩
     · subst h1
-      refine ⟨25, 25, .unlimited, ?_⟩
-      unfold LBuf.setSauce LBuf.start
-      simp only [hc, if_true, h2]
-      rfl
+      rw [tnd_start_none, h2]
+      exact ⟨_, _, _, rfl⟩
     · subst h1
-      refine ⟨0, 0, .unlimited, ?_⟩
-      unfold LBuf.setSauce LBuf.start
-      have hm : BinFmt.sauceMaxWidth = 1000 := rfl
-      have hcond : ¬ (p.w = 0 ∨ p.w > BinFmt.sauceMaxWidth) := by rw [hm]; omega
-      simp only [hc, if_true, hcond, if_false]
-      rfl
+      rw [tnd_start s' (by omega) h3, h2]
+      exact ⟨_, _, _, rfl⟩
   obtain ⟨bh0, lh0, im, hst⟩ := hstart
   unfold tndLoad
   rw [hst]
@@ -78,7 +98,8 @@ theorem tnd_load (p : Pic) (s : Option Sauce) (bytes : List Nat)
     List.drop_left' (by simp [hhl])
   simp only [c1, if_false, c2, Bool.false_eq_true, c3]
   -- the command loop
-  let b1 : LBuf := { bw := p.w, bh := bh0, lw := p.w, lh := lh0, lines := [], ice := IceMode.ice, pal := [(0, 0, 0)], fonts := [(0, defaultFont)] }
+  let b1 : LBuf := { bw := p.w, bh := bh0, lw := p.w, lh := lh0, lines := [], ice := IceMode.ice, pal := [(0, 0, 0)], fonts := [(0, defaultFont)],
+                     sauce := s.map metaOf }
   have hfuel : bytes.length + 1 = (bytes.length + 1 - p.rows.flatten.length) + p.rows.flatten.length := by omega
   have hl := hrun ⟨b1, Xb.defaultFg, Xb.defaultBg, 0, 0⟩ (bytes.length + 1 - p.rows.flatten.length) rfl rfl rfl rfl rfl hw1
   rw [List.append_nil] at hl
@@ -140,18 +161,10 @@ theorem getD_mem' {α : Type} (l : List α) (i : Nat) (d : α) (h : i < l.length
 theorem isVisible_flags0 (c : Cell) (h : c.attr.flags = 0) : isVisible c = true := by
   unfold isVisible; rw [h]; decide
 
-theorem dims_tundra (w : Nat) (hw : w < 65536) :
-    sauceDims (BinFmt.sauceDtCharacter % 256) (BinFmt.sauceFtTundra % 256) (w % 256 + (w / 256) % 256 * 256) (0 % 256 + (0 / 256) % 256 * 256) 0 =
-      (w, 0, false) := by
-  unfold sauceDims
-  have e1 : w % 256 + (w / 256) % 256 * 256 = w := by omega
-  rw [e1]
-  rfl
-
-theorem tnd_same (p : Pic) (hwf : wellFormed p = true) (hice : p.ice = .ice) (hpages : analyzeFontUsage p.rows.flatten = [0])
+theorem tnd_same (p : Pic) (m : Option Sauce.Meta) (hwf : wellFormed p = true) (hice : p.ice = .ice) (hpages : analyzeFontUsage p.rows.flatten = [0])
     (hsize : p.w * p.h < 1073741824)
     (hcells : ∀ r ∈ p.rows, ∀ c ∈ r, c.ch ≤ 255 ∧ isVisible c = true ∧ isBlink c.attr = false ∧ c.attr.fg < 2147483648 ∧ c.attr.bg < 2147483648) :
-    SamePicture .tnd p (tndLoaded p) := by
+    SamePicture .tnd p (tndLoaded p m) := by
   obtain ⟨hne, hrows, hwid⟩ := rows_nonempty p hwf
   obtain ⟨hl1, hl2⟩ := jrows_lengths p.pal p.rows (js0 p)
   obtain ⟨_, _, hgood, hlen⟩ := jrows_good p.pal p.rows (js0 p) (js0_inv p)
@@ -171,9 +184,9 @@ theorem tnd_same (p : Pic) (hwf : wellFormed p = true) (hice : p.ice = .ice) (hp
     have hx'' : x < ((jrows p.pal (js0 p) p.rows).2.getD y []).length := by rw [hl2 y, hrl]; exact hx
     have hg := allGood2_get p.pal _ p.rows _ y x hgood hyr (by rw [hrl]; exact hx)
     obtain ⟨g1, g2, g3, g4, g5, g6, g7⟩ := hg
-    have hcell : (tndLoaded p).getCell x y = ((jrows p.pal (js0 p) p.rows).2.getD y []).getD x Cell.invisible := by
+    have hcell : (tndLoaded p m).getCell x y = ((jrows p.pal (js0 p) p.rows).2.getD y []).getD x Cell.invisible := by
       unfold LBuf.getCell
-      have h1 : x < (tndLoaded p).lw ∧ (y : Int) < (tndLoaded p).lh := ⟨hx, by show (y : Int) < (p.h : Int); omega⟩
+      have h1 : x < (tndLoaded p m).lw ∧ (y : Int) < (tndLoaded p m).lh := ⟨hx, by show (y : Int) < (p.h : Int); omega⟩
       simp only [h1, and_self, if_true]
       show (let c := (((jrows p.pal (js0 p) p.rows).2.map (partRow p.w)).getD y []).getD x Cell.invisible
             if isVisible c = true then c else Cell.dflt) = _
@@ -189,7 +202,7 @@ theorem tnd_same (p : Pic) (hwf : wellFormed p = true) (hice : p.ice = .ice) (hp
     unfold cellSame
     have hnbold : isBold d.attr = false := by unfold isBold; rw [g2]; decide
     have hnblink : isBlink d.attr = false := by unfold isBlink; rw [g2]; decide
-    have hfg : dispFg (tndLoaded p).pal d = dispFg p.pal (p.cell x y) := by
+    have hfg : dispFg (tndLoaded p m).pal d = dispFg p.pal (p.cell x y) := by
       unfold dispFg
       simp only [hnbold, Bool.false_eq_true, false_and, if_false]
       show getRgb (jrows p.pal (js0 p) p.rows).1.lpal d.attr.fg = _
@@ -198,7 +211,7 @@ theorem tnd_same (p : Pic) (hwf : wellFormed p = true) (hice : p.ice = .ice) (hp
       simp only [this, if_false]
       rw [g6]
       rfl
-    have hbg : dispBg (tndLoaded p).pal d = dispBg p.pal (p.cell x y) := by
+    have hbg : dispBg (tndLoaded p m).pal d = dispBg p.pal (p.cell x y) := by
       unfold dispBg
       show getRgb (jrows p.pal (js0 p) p.rows).1.lpal d.attr.bg = _
       have : ¬ (d.attr.bg ≥ 2147483648) := by omega
@@ -211,15 +224,14 @@ theorem tnd_same (p : Pic) (hwf : wellFormed p = true) (hice : p.ice = .ice) (hp
   · intro h; exact absurd h (by decide)
   · intro h; exact absurd h (by decide)
 
-/-- Tundra: every representable picture at most 1000 columns wide is written, and — unless it was saved without a SAUCE
-    record and its last 128 bytes spell one — loaded back as the same picture -/
-theorem tnd_roundtrip (o : Opts) (date : List Nat) (p : Pic) (hrep : Representable .tnd o p = true) (hdate : dateOk date = true)
-    (hw1000 : p.w ≤ 1000) :
+/-- Tundra: every representable picture is written, and — unless it was saved without a SAUCE record and its tail reads as
+    one — loaded back as the same picture (any width the SAUCE record can hold) -/
+theorem tnd_roundtrip (o : Opts) (date : List Nat) (p : Pic) (hrep : Representable .tnd o p = true) (hdate : dateOk date = true) :
     ∃ bytes, save .tnd o date p = .ok bytes ∧
-      ((o.sauce = true ∨ looksLikeSauce bytes = false) → ∃ g, fromBytes .tnd bytes = .ok g ∧ SamePicture .tnd p g) := by
+      ((o.sauce = true ∨ tailReadsAsSauce bytes = false) → ∃ g, fromBytes .tnd bytes = .ok g ∧ SamePicture .tnd p g) := by
   unfold Representable at hrep
   simp only [Bool.and_eq_true, beq_iff_eq, decide_eq_true_eq, Bool.or_eq_true, Bool.not_eq_true'] at hrep
-  obtain ⟨hwf, ⟨⟨⟨⟨⟨hwidth, hsize⟩, hice⟩, hpages⟩, hfont⟩, hcells⟩⟩ := hrep
+  obtain ⟨⟨hmeta, hwf⟩, ⟨⟨⟨⟨⟨hwidth, hsize⟩, hice⟩, hpages⟩, hfont⟩, hcells⟩⟩ := hrep
   obtain ⟨hne, hrows, hwid⟩ := rows_nonempty p hwf
   have hcc := tnd_cells_cond p hcells
   have hw1 : 1 ≤ p.w := by
@@ -260,7 +272,7 @@ theorem tnd_roundtrip (o : Opts) (date : List Nat) (p : Pic) (hrep : Representab
     have h4 : ¬ ((analyzeFontUsage p.rows.flatten).length > 1) := by rw [hpages]; decide
     simp only [h4, if_false, hwr, List.append_nil]
     rfl
-  have hsame := tnd_same p hwf hice hpages hsize hcc
+  have hsame := fun m => tnd_same p m hwf hice hpages hsize hcc
   have hvis2 : ∀ r ∈ p.rows, ∀ c ∈ r, c.ch ≤ 255 ∧ isVisible c = true := fun r hr c hc => ⟨(hcc r hr c hc).1, (hcc r hr c hc).2.1⟩
   cases hsa : o.sauce with
   | true =>
@@ -269,16 +281,18 @@ theorem tnd_roundtrip (o : Opts) (date : List Nat) (p : Pic) (hrep : Representab
       · rw [hsa] at h; exact absurd h (by decide)
       · exact Option.isSome_iff_exists.mp h
     obtain ⟨f0, hf0⟩ := hf0
-    obtain ⟨fbytes, hw, hfb⟩ := fromBytes_sauced .tnd .tundra p date body f0 BinFmt.sauceDtCharacter BinFmt.sauceFtTundra p.w 0 false false hf0
-      (by unfold sauceFields; rfl) hdate
-    refine ⟨fbytes, ?_, fun _ => ⟨tndLoaded p, ?_, hsame⟩⟩
+    have hw65 : p.w ≤ 65535 := by
+      rcases hwidth with h | h
+      · omega
+      · exact h.2
+    obtain ⟨fbytes, hw, _, hfb⟩ := fromBytes_sauced .tnd .tundra p date body f0 hf0 hmeta (fun h => by cases h) hdate
+    obtain ⟨c1, _, _, c4⟩ := carry_tundra p f0.name (fbytes.length - body.length) (by omega)
+    generalize Sauce.carry SauceKind.tundra.idx (bufInfo p f0.name) (fbytes.length - body.length) = sc at hfb c1 c4
+    refine ⟨fbytes, ?_, fun _ => ⟨tndLoaded p (some (metaOf sc)), ?_, hsame _⟩⟩
     · show tndSave o.sauce date p = _
       rw [hsave0, hsa]; exact hw
     · rw [hfb]
-      have hd := dims_tundra p.w (by omega)
-      simp only [Bool.false_eq_true, if_false] at hd ⊢
-      rw [hd]
-      exact tnd_load p _ bytes hwf hw1 (Or.inr ⟨rfl, hw1000⟩) hvis2 hwr hrun' hlen
+      exact tnd_load p (some sc) bytes hwf hw1 (Or.inr ⟨sc, rfl, c1, c4⟩) hvis2 hwr hrun' hlen
   | false =>
     have hw80 : p.w = 80 := by
       rcases hwidth with h | h
@@ -287,12 +301,12 @@ theorem tnd_roundtrip (o : Opts) (date : List Nat) (p : Pic) (hrep : Representab
     refine ⟨body, ?_, fun hor => ?_⟩
     · show tndSave o.sauce date p = _
       rw [hsave0, hsa]; rfl
-    · have hl : looksLikeSauce body = false := by
+    · have hl : tailReadsAsSauce body = false := by
         rcases hor with h | h
         · exact absurd h (by simp)
         · exact h
-      refine ⟨tndLoaded p, ?_, hsame⟩
-      rw [fromBytes_plain .tnd body hl]
+      refine ⟨tndLoaded p none, ?_, hsame _⟩
+      rw [fromBytes_plain' .tnd body hl]
       exact tnd_load p none bytes hwf hw1 (Or.inl ⟨rfl, hw80⟩) hvis2 hwr hrun' hlen
 
 end IcyVerif.BinFormats
